@@ -1,5 +1,5 @@
 SPECIFICATION Spec
 CONSTANTS
   NMarks = 2
-INVARIANTS UntilOk
+INVARIANTS UntilOk DayOk
 CHECK_DEADLOCK FALSE
